@@ -44,8 +44,14 @@ int main(){
         std::istringstream in(line);
         std::string kind; in >> kind;
         double s=rd(in), lx=rd(in), ly=rd(in), lz=rd(in), hx_=rd(in), hy=rd(in), hz=rd(in);
-        // refuse absurd grids (the generator never asks for them)
-        if (kind=="G4"){ uspg_4d<int> g(lx,ly,lz,hx_,hy,hz,s,0); run_case(g,in,true); }
+        // "G4R"/"G3R": the grid object is first built for ANOTHER box (given after the kind-specific box), filled, and then
+        // re-dimensioned with update_dimensions() to the box of the case: a re-used grid must behave like a fresh one
+        if (kind=="G4R" || kind=="G3R"){
+            double px=rd(in), py=rd(in), pz=rd(in), qx=rd(in), qy=rd(in), qz=rd(in);
+            if (kind=="G4R"){ uspg_4d<int> g(px,py,pz,qx,qy,qz,s,0); g.place_object(7, px, py, pz); g.place_object(8, qx, qy, qz); g.update_dimensions(0, lx,ly,lz,hx_,hy,hz); run_case(g,in,true); }
+            else { uspg_3d<int> g(px,py,pz,qx,qy,qz,s,0); g.place_object(7, px, py, pz); g.update_dimensions(0, lx,ly,lz,hx_,hy,hz); run_case(g,in,false); }
+        }
+        else if (kind=="G4"){ uspg_4d<int> g(lx,ly,lz,hx_,hy,hz,s,0); run_case(g,in,true); }
         else { uspg_3d<int> g(lx,ly,lz,hx_,hy,hz,s,0); run_case(g,in,false); }
     }
     return 0;
